@@ -25,12 +25,18 @@ MANIFEST = {
     "text": "Lean theorems over the model of the signer (signing_solver: reuse of existing signatures, max_sigs, reverse key order, low-S, DER + hash type, "
             "placeholder padding, ordering; the scriptSig/witness written for P2PK, P2PKH, bare/P2SH/P2WSH/P2SH-P2WSH multisig, P2WPKH, P2SH-P2WPKH; "
             "Solver.sign's frame: input subset, skipping valid inputs, fork-id forcing; Keychain lookups): emitted signatures are strict DER, low-S and carry "
-            "the requested hash type; the consensus specification accepts the model's solutions under the full standard flag set given ECDSA-verify of the right "
-            "digest; partial multisig signing is order independent; nothing but the script and witness of the chosen inputs changes. The symbolic-execution "
+            "the requested hash type; the consensus specification accepts the model's solutions under the full standard flag set with CheckSig = ECDSA-verify "
+            "(C01) of the C04 digest — single-key templates and m-of-n multisig for every 1 <= m <= n <= 20 in all four wrappings (counts 17..20 as the "
+            "one-byte pushes 01 11..01 14 pycoin emits and MINIMALDATA requires; redeem scripts pushed direct / PUSHDATA1 / PUSHDATA2; under P2SH the 520-byte "
+            "limit admits exactly n <= 15 compressed or n <= 7 uncompressed keys); any sequence of signing passes on the model leaves min(m, distinct listed "
+            "keys supplied) signatures and placeholders otherwise, is accepted exactly when m distinct listed keys were supplied, whatever the order of the "
+            "passes, and a wrong secret leaves the input rejected; nothing but the script and witness of the chosen inputs changes. The symbolic-execution "
             "machinery of the solver is tied to the model by byte-for-byte equality of what tx.sign writes (RFC 6979 makes signatures deterministic).",
     "note": "The signature hash is computed inside the model by C04's Model/Sighash.lean (the digests pycoin computes are sent along and cross-checked); DER and SEC "
             "encodings are C10's models. Supplied by the harness from pycoin: whether an input already validates under the default flags (C03). ECDSA "
-            "unforgeability (the placeholder signature does not verify) is an explicit hypothesis.",
+            "unforgeability appears as explicit hypotheses of the _partial theorems: the placeholder signature verifies for no key; a signature made for one "
+            "listed key (or with a wrong secret) does not verify for another listed key. Legacy end-to-end theorems carry the side condition that "
+            "FindAndDelete of the pushed signatures leaves the script code unchanged (signatures do not occur inside the puzzle script).",
     "technique": "Lean 4 proof over an executable model + differential correspondence model vs implementation (exact bytes) + validation oracles on the implementation",
 }
 RULE = ("ops c05_sign_tx (one or several signing passes over a transaction mixing the standard templates), c05_sign_solver, c05_der, c05_lax, c05_sec, "
@@ -1032,12 +1038,18 @@ def gen(ctx, emit):
         if kind.endswith("ms"):
             emit(scenario_op(ctx, sc, "dict", passes=[[ds[1]]]))
     # m-of-n across the atom-numbering boundary (x_9 / x_10) and at the size limits
-    big = [("ms", 10, 10), ("p2sh-ms", 9, 9), ("p2wsh-ms", 9, 10), ("ms", 11, 12), ("p2sh-ms", 15, 15), ("p2wsh-ms", 20, 20)]
+    # (counts above 16 are written as one-byte pushes 01 11 .. 01 14; under P2SH 15 compressed / 7 uncompressed keys fill the 520 bytes)
+    big = [("ms", 10, 10), ("p2sh-ms", 9, 9), ("p2wsh-ms", 9, 10), ("ms", 11, 12), ("p2sh-ms", 15, 15), ("p2wsh-ms", 20, 20),
+           ("ms", 17, 17), ("p2sh-p2wsh-ms", 16, 17), ("p2sh-ms-u", 7, 7)]
     if ctx.thorough:
-        big += [("ms", 20, 20), ("p2sh-p2wsh-ms", 16, 20), ("p2sh-ms", 1, 15), ("p2wsh-ms", 1, 20), ("ms", 16, 17), ("p2wsh-ms", 17, 17)]
+        big += [("ms", 20, 20), ("p2sh-p2wsh-ms", 16, 20), ("p2sh-ms", 1, 15), ("p2wsh-ms", 1, 20), ("ms", 16, 17), ("p2wsh-ms", 17, 17),
+                ("ms", 1, 18), ("p2sh-p2wsh-ms", 20, 20), ("p2wsh-ms", 18, 19), ("p2sh-ms-u", 1, 7), ("ms-u", 20, 20)]
     for kind, m, n in big:
         sc = Scenario(ctx, rng.choice(["btc", "bch"]), pool)
-        sc.add(kind, fresh(n), m)
+        if kind.endswith("-u"):
+            sc.add(kind[:-2], fresh(n), m, compressed=False)
+        else:
+            sc.add(kind, fresh(n), m)
         emit(scenario_op(ctx, sc, "dict"))
 
     # --- multisig one key at a time, every order for n <= 4 (sampled in quick), sampled beyond
